@@ -1,8 +1,10 @@
 """C20 A terminal's FMMUs are never shared by two live mappings
 
 domain : histories of enter / leave (any order) of Terminal.map_fmmu(logical,
-         write) and of whole SyncGroupBase.map_fmmu contexts of two groups
-         sharing the terminal, on terminals with 1..4 FMMUs.
+         write), of 2-3 map_fmmu calls entered concurrently (their
+         configuration writes interleave on the bus), and of whole
+         SyncGroupBase.map_fmmu contexts of two groups sharing the terminal,
+         on terminals with 1..4 FMMUs.
 oracle : invariant after every step over the slot each live mapping was given
          and the FMMU register blocks of the simulated terminal.
 """
@@ -23,7 +25,8 @@ LEVEL = "exploration"
 TECHNIQUE = ("model-based stateful testing: Hypothesis-generated operation "
              "histories, invariant checked after every step")
 RULE = ("Hypothesis draws histories (<= 14 steps) of enter(write?, logical) / "
-        "leave(k-th live mapping) / group-enter / group-leave on a terminal "
+        "concurrent-enter(2-3) / leave(k-th live mapping) / group-enter / "
+        "group-leave on a terminal "
         "with 1..4 FMMUs; non-trivial = at some step two mappings are live at "
         "once; distinct by (fmmu count, sequence of op kinds and directions)")
 ASSUMPTIONS = [
@@ -39,6 +42,11 @@ op = st.one_of(
     st.builds(lambda w, l: {"op": "enter", "write": w, "logical": l},
               st.booleans(),
               st.sampled_from([0x1000, 0x1800, 0x400000]) | st.integers(0, 2**31 - 1)),
+    st.builds(lambda items: {"op": "penter", "items": items},
+              st.lists(st.builds(
+                  lambda w, l: {"write": w, "logical": l}, st.booleans(),
+                  st.sampled_from([0x1000, 0x1800, 0x400000, 0x2000])),
+                  min_size=2, max_size=3)),
     st.builds(lambda k: {"op": "leave", "which": k}, st.integers(0, 7)),
     st.builds(lambda g: {"op": "genter", "group": g}, st.integers(0, 1)),
     st.builds(lambda g: {"op": "gleave", "group": g}, st.integers(0, 1)),
@@ -134,6 +142,31 @@ def run_case(case):
                             f"{expected_block(o['logical'], o['write']).hex()}")
                 live.append(dict(cm=cm, slots=[slot], group=None,
                                  maps=[(o["logical"], o["write"])]))
+            elif o["op"] == "penter":
+                # several mappings requested at the same time (two sync groups
+                # starting together): the configuration writes interleave
+                kinds.append("P" + "".join("w" if i["write"] else "r"
+                                           for i in o["items"]))
+                cms = [t.map_fmmu(i["logical"], i["write"])
+                       for i in o["items"]]
+                got = await asyncio.gather(*[cm.__aenter__() for cm in cms],
+                                           return_exceptions=True)
+                for cm, item, slot in zip(cms, o["items"], got):
+                    if isinstance(slot, Exception):
+                        kinds[-1] += "!"
+                        continue
+                    if not (isinstance(slot, int) and 0 <= slot < n):
+                        return (f"concurrent map_fmmu yielded slot {slot}")
+                    if slot in slots_in_use():
+                        return (f"concurrent map_fmmu(write={item['write']})"
+                                f" was given slot {slot}, which a live "
+                                f"mapping holds; table before {before_used},"
+                                f" live slots {slots_in_use()}")
+                    live.append(dict(cm=cm, slots=[slot], group=None,
+                                     maps=[(item["logical"], item["write"])]))
+                w = check_live("after concurrent enters")
+                if w:
+                    return w
             elif o["op"] == "leave":
                 singles = [m for m in live if m["group"] is None]
                 if not singles:
